@@ -87,6 +87,7 @@ struct Model {
   std::map<int, int> next_inst;
   std::map<std::pair<int, int>, MLeafRun> runs;
   std::map<int, int> calls;
+  std::map<long, int> allocate_started;   // allocator id -> number of allocate() nodes started while that allocator was the visible one
   std::map<int, uint64_t> bound_val;  // let_value / let_value_with bound payloads by node id
   std::map<int, long> bound_err;
   std::map<int, MSource*> bound_ss;
@@ -229,6 +230,11 @@ struct MMap : MNode {
     finish(r);  // materialize|dematerialize, any_sender_of, allocate, with_query_value, with_allocator, unstoppable: transparent
   }
 };
+struct MWithAlloc : MMap { void start() override { MNode* c = kids[0].get(); c->tok = tok; c->sched_ctx = sched_ctx; c->tag = tag; c->alloc = d->a; c->started = true; c->start(); } };
+// allocate(): "obtains its memory from exactly the allocator visible at that point" (C12): note which allocator a started allocate() saw
+struct MAllocate : MMap { void start() override { M->allocate_started[alloc]++; MMap::start(); } };
+// nest(sender, scope) in a scope that has already been joined: "work nested after the scope is closed is never started and completes with done" (C08)
+struct MNestClosed : MNode { void start() override { Result r; r.chan = DONE; finish(r); } };
 struct MUnstoppable : MMap { MSource* child_tok() override { return nullptr; } };  // unstoppable(): child sees unstoppable_token
 struct MWithQuery : MMap { void start() override { MNode* c = kids[0].get(); c->tok = tok; c->sched_ctx = sched_ctx; c->tag = d->nid; c->alloc = alloc; c->started = true; c->start(); } };
 // any_sender_of<Ts...> declared without extra queries forwards only the stop token (adapted); scheduler, allocator and custom
@@ -317,6 +323,31 @@ struct MWhenAll : MNode {
       if (tok && tok->stopped) o.chan = DONE;
       else if (done_or_error) { if (have_err) { o.chan = ERROR; o.err = err; } else o.chan = DONE; }
       else { o.chan = VALUE; uint64_t acc = (uint64_t)d->nid; for (auto& v : vals) acc = sr::mix(acc, v.payload); o.payload = acc; }
+      finish(o);
+    }
+  }
+};
+
+// when_all_range (no reference text; the code's own rule, which is also what C05 states: "all values or the first error/done"):
+// an empty range completes at once with an empty vector; otherwise all children are started, the first child to complete
+// with error or done decides the result and requests stop on the others, the result is delivered when all have completed.
+struct MWhenAllRange : MNode {
+  MSource ss; MListener up; int remaining = 0; bool latched = false; Result first;
+  std::vector<Result> vals;
+  void start() override {
+    remaining = (int)kids.size(); vals.resize(kids.size());
+    if (kids.empty()) { Result o; o.chan = VALUE; o.payload = (uint64_t)d->nid; return finish(o); }
+    up.fn = [this] { ss.request_stop(); };
+    up.reg(tok);
+    for (auto& k : kids) { if (completed) return; start_child(k.get(), &ss); }
+  }
+  void child_done(int s, Result r) override {
+    if (r.chan == VALUE) vals[(size_t)s] = r;
+    else if (!latched) { latched = true; first = r; ss.request_stop(); }
+    if (--remaining == 0) {
+      up.dereg();
+      if (latched) return finish(first);
+      Result o; o.chan = VALUE; uint64_t acc = (uint64_t)d->nid; for (auto& v : vals) acc = sr::mix(acc, v.payload); o.payload = acc;
       finish(o);
     }
   }
@@ -427,7 +458,11 @@ inline std::unique_ptr<MNode> Model::build(int idx) {
     case K_SCHEDULE: { auto* s = new MSchedule(); s->ctx = d->a; n.reset(s); break; }
     case K_JUST: case K_JUST_FROM: case K_JVOD: case K_SIR: case K_REF: case K_ERRREF: case K_REQSTOP: n.reset(new MInline()); break;
     case K_THEN: case K_E2V: case K_V2E: case K_UPON_ERROR: case K_UPON_DONE: case K_MATDEMAT: case K_DONE_AS_OPT:
-    case K_ALLOCATE: case K_INTO_VARIANT: case K_WITH_ALLOC: case K_LVWST: n.reset(new MMap()); break;
+    case K_INTO_VARIANT: case K_LVWST: case K_NEST: n.reset(new MMap()); break;
+    case K_ALLOCATE: n.reset(new MAllocate()); break;
+    case K_WITH_ALLOC: n.reset(new MWithAlloc()); break;
+    case K_NEST_CLOSED: n.reset(new MNestClosed()); break;
+    case K_WAR: n.reset(new MWhenAllRange()); break;
     case K_ANY: n.reset(new MAny()); break;
     case K_WITH_QUERY: n.reset(new MWithQuery()); break;
     case K_UNSTOPPABLE: n.reset(new MUnstoppable()); break;
